@@ -63,18 +63,25 @@ STATEMENT_STATUS: Dict[str, str] = {
     "C09_neighbour_iff": "proved: find_neighbors through the grid index = documented relation (line_margin >= 0, "
                          "non-empty lines, well-formed page; uses C20 plane_find)",
     "C09_no_neighbour_if_negative": "proved",
-    "C09_column_order_partial": "partial: sort-key inequalities only; that a column is merged before the columns are "
-                                "joined is tested on generated layouts, not proved",
+    "C09_column_order_partial": "partial (numeric boxes_flow): sort-key inequalities only; that a column is merged before the "
+                                "columns are joined is tested on generated layouts, not proved",
+    "C09_order_none": "proved (full): with boxes_flow=None the boxes come out sorted by the positional key - a column top to "
+                      "bottom, equal bottoms left to right, vertical boxes first",
+    "C09_order_none_top_to_bottom": "proved",
     "C09_scale_predicates": "proved (all predicates/measures homogeneous, any s > 0)",
     "C09_scale_lines": "proved: group_objects, word spaces and the empty-line split commute with scaling",
     "C09_scale_neighbours": "proved: the neighbour relation (as a set, through the grid index) is the same at every scale",
-    "C09_scale_statement": "full statement for group_textlines - FALSE for the code",
-    "C09_scale_cex": "proved counter-example (open finding C09-scale-equal-key-line-order, replayed on the implementation)",
+    "C09_find_neighbors_order": "proved: find_neighbors lists neighbours in line order (grid independent; after fix 014f62d)",
+    "C09_scale_textlines": "proved: group_textlines commutes with scaling as an equation (boxes, member order)",
+    "C09_scale_analyze_none": "proved: the WHOLE analysis commutes with scaling when boxes_flow is None",
+    "C09_scale_textboxes": "proved: group_textboxes performs the same merges on the scaled boxes (heap-loop simulation)",
+    "C09_scale": "proved: the WHOLE analysis commutes with scaling for every s > 0 and every LAParams (heap order = "
+                 "tuple order with creation numbers for id())",
 }
 
 CLASSIFIERS = {
-    # the order of lines with EQUAL top edge inside one box follows Plane.find's cell scan order,
-    # which depends on where the 50-unit grid falls, i.e. on the scale
+    # (fixed 014f62d; no open finding uses it any more) the order of lines with EQUAL top edge inside one
+    # box followed Plane.find's cell scan order, which depends on where the 50-unit grid falls
     "c09_scale_equal_key_line_order": lambda f: (f.tags.get("check") == "scale" and f.tags.get("equal_key_lines", False)
                                                  and f.tags.get("only_equal_key_order", False)),
 }
@@ -90,11 +97,19 @@ def S(x) -> str:
 
 # --------------------------------------------------------------------------- implementation adapters
 
-def impl_pair(a, b, la, texts=("a", "b")):
+BIG_PAGE = ("-1000", "-1000", "3000", "3000")
+# page boxes that leave the test arrangement (coordinates 0..400) inside, across and entirely outside the
+# page, with borders on and off the multiples of the Plane grid size
+PAGES = [BIG_PAGE, BIG_PAGE, ("0", "0", "612", "792"), ("0", "0", "600", "800"), ("500", "450", "650", "600"),
+         ("150", "350", "400", "500"), ("-300", "-300", "-100", "-50"), ("130", "310", "131", "311"),
+         ("3/2", "7/2", "99/2", "101/2")]
+
+
+def impl_pair(a, b, la, texts=("a", "b"), bbox=BIG_PAGE):
     """Analyse a page holding exactly glyphs a, b (in content order).
     Returns (same_line, line_class, space_between, same_box)."""
     from pdfminer.layout import LTAnno, LTChar, LTTextBox, LTTextLine, LTTextLineVertical
-    case = {"bbox": ["-1000", "-1000", "3000", "3000"], "la": la,
+    case = {"bbox": list(bbox), "la": la,
             "items": [["c", 1] + [S(v) for v in a] + [texts[0]], ["c", 2] + [S(v) for v in b] + [texts[1]]]}
     page, err = L.run_impl(case)
     if err is not None:
@@ -131,7 +146,7 @@ def impl_pair(a, b, la, texts=("a", "b")):
     return same_line, cls, space, same_box, case
 
 
-def impl_neighbors(a, b, ratio, vertical: bool) -> Tuple[bool, bool]:
+def impl_neighbors(a, b, ratio, vertical: bool, bbox=BIG_PAGE) -> Tuple[bool, bool]:
     """find_neighbors of line A (a single glyph `a`) in a plane holding lines A and B: is B returned? is A?"""
     from pdfminer.layout import LTTextLineHorizontal, LTTextLineVertical
     from pdfminer.utils import Plane
@@ -139,7 +154,7 @@ def impl_neighbors(a, b, ratio, vertical: bool) -> Tuple[bool, bool]:
     la_, lb_ = cls(F(1, 8)), cls(F(1, 8))
     la_.add(L.make_char(1, *a, "a"))
     lb_.add(L.make_char(2, *b, "b"))
-    plane = Plane((F(-1000), F(-1000), F(3000), F(3000)))
+    plane = Plane(tuple(F(v) for v in bbox))
     plane.extend([la_, lb_])
     res = la_.find_neighbors(plane, ratio)
     return any(x is lb_ for x in res), any(x is la_ for x in res)
@@ -295,22 +310,28 @@ def run_predicates(ctx: C.Ctx) -> None:
                 ask("space_v" if vertical else "space_h", [wm, last] + list(b), space, {"case": case, "wm": wm})
             else:
                 r, a, b = gen_neighbor_pair(rng, vertical)
-                nb, self_nb = impl_neighbors(a, b, r, vertical)
+                pg = rng.choice(PAGES)
+                ctx.branch("pred:page:" + ",".join(pg))
+                nb, self_nb = impl_neighbors(a, b, r, vertical, pg)
                 ctx.case(("nb", vertical, r, a, b), True, sample={"pred": "neighbour", "ratio": S(r),
                                                                   "a": [S(v) for v in a], "b": [S(v) for v in b]},
                          branch="pred:neighbor_%s:%d" % ("v" if vertical else "h", nb))
                 ask("neighbor_v" if vertical else "neighbor_h", [r] + list(a) + list(b), nb,
-                    {"a": a, "b": b, "ratio": r, "vertical": vertical})
+                    {"a": a, "b": b, "ratio": r, "vertical": vertical, "page": tuple(F(v) for v in pg)})
                 # end to end: two single-glyph lines share a box iff neighbours in one direction
                 if i % 2 == 0:
-                    nb2, _ = impl_neighbors(b, a, r, vertical)
+                    nb2, _ = impl_neighbors(b, a, r, vertical, pg)
                     la = dict(LA0, line_overlap="1", char_margin="0", line_margin=S(r), detect_vertical=vertical,
                               boxes_flow=None)
-                    same_line, _, _, same_box, case = impl_pair(a, b, la, texts=("a", "b"))
+                    same_line, _, _, same_box, case = impl_pair(a, b, la, texts=("a", "b"), bbox=pg)
                     ctx.branch("pred:same_box:%d" % same_box)
                     if not same_line and same_box != (nb or nb2):
                         ctx.fail(C.Failure("two lines share a box although neither is a neighbour of the other (or vice versa)",
-                                           case, nb or nb2, same_box, {"check": "box-vs-neighbour"}))
+                                           case, nb or nb2, same_box, {"check": "box-vs-find_neighbors"}))
+                    if not same_line and not vertical:
+                        # ... and iff the DOCUMENTED relation holds in one of the two directions
+                        ask("neighbor_h", [r] + list(a) + list(b), same_box, {"case": case, "either": True})
+                        ask("neighbor_h", [r] + list(b) + list(a), None, {"skip": True})
         except Exception as e:  # noqa: BLE001
             ctx.fail(C.Failure("layout analysis raised on a two-glyph page", {"i": i}, "no exception", repr(e),
                                {"check": "exception"}))
@@ -329,6 +350,14 @@ def run_predicates(ctx: C.Ctx) -> None:
             other = outs[idx + 1].split()
             model_val = model_val and other[0] != "1"
             spec_val = spec_val and other[1] != "1"
+        if info.get("either"):
+            other = outs[idx + 1].split()
+            model_val = model_val or other[0] == "1"
+            spec_val = spec_val or other[1] == "1"
+            if spec_val != impl_val:
+                ctx.fail(C.Failure("two lines are (not) joined into one box against the documented neighbour relation",
+                                   info["case"], spec_val, impl_val, {"check": "box-vs-neighbour"}))
+            continue
         if model_val != impl_val:
             ctx.disagree("pred." + name, {k: str(v) for k, v in info.items() if k != "case"}, impl_val, model_val)
         if spec_val != impl_val:
@@ -692,7 +721,7 @@ def replay_pred(ctx: C.Ctx, name: str, inp, tags) -> None:
         a = tuple(F(x) for x in inp["a"])
         b = tuple(F(x) for x in inp["b"])
         r = F(inp["ratio"])
-        got, _ = impl_neighbors(a, b, r, name.endswith("_v"))
+        got, _ = impl_neighbors(a, b, r, name.endswith("_v"), tuple(inp.get("page") or BIG_PAGE))
         exp = spec_of("pred %s %s" % (name, " ".join(S(x) for x in [r] + list(a) + list(b))))
     else:
         la = inp["la"]
@@ -725,7 +754,18 @@ def replay(ctx: C.Ctx, doc, batch=None) -> None:
         replay_pred(ctx, check[5:], inp, tags)
     elif isinstance(inp, dict) and "items" in inp:
         ctx.case(("replay", json.dumps(inp, sort_keys=True)), True, branch="replay")
-        if check == "column-order":
+        if check == "box-vs-neighbour" and ctx.driver is not None and len(inp["items"]) == 2:
+            a = tuple(F(v) for v in inp["items"][0][2:6])
+            b = tuple(F(v) for v in inp["items"][1][2:6])
+            r = F(inp["la"]["line_margin"])
+            same_line, _, _, same_box, _ = impl_pair(a, b, inp["la"], bbox=tuple(inp["bbox"]))
+            o = ctx.driver.ask(["pred neighbor_h " + " ".join(S(x) for x in [r] + list(a) + list(b)),
+                                "pred neighbor_h " + " ".join(S(x) for x in [r] + list(b) + list(a))])
+            spec = o[0].split()[1] == "1" or o[1].split()[1] == "1"
+            if not same_line and spec != same_box:
+                ctx.fail(C.Failure("two lines are (not) joined into one box against the documented neighbour relation",
+                                   inp, spec, same_box, tags))
+        elif check == "column-order":
             page, err = L.run_impl(inp)
             if err is not None:
                 ctx.fail(C.Failure("layout analysis raised", inp, "no exception", repr(err), {"check": "exception"}))
